@@ -281,14 +281,18 @@ def opener (l : Str) : Bool :=
   l = "NOTE".toList || hasPrefix "NOTE ".toList l || hasPrefix "NOTE\t".toList l || hasPrefix "STYLE".toList l ||
   hasPrefix "Region: ".toList l || hasPrefix "X-TIMESTAMP-MAP".toList l
 
-/-- identifier line: digits → the number, anything else without a sign → no numeric identifier -/
+/-- identifier line: digits → the number, anything else without a sign → no numeric identifier
+    (a run of digits worth more than 2^64-1 followed by anything else is left outside: `strconv.Atoi` reports the
+    range error before it meets the other character, and the library keeps the clamped value) -/
 def cueId (l : Str) : Option Int :=
   if opener l then none else
   match natOf l with
   | some n => if n < 2 ^ 62 then some (n : Int) else none
   | none =>
     match l with
-    | c :: _ => if c = '+' || c = '-' then none else some 0
+    | c :: _ => if c = '+' || c = '-' then none
+                else if Go.uint64Max < Go.leadVal l 0 then none   -- twenty digits and more, then something else: outside
+                else some 0
     | [] => some 0
 
 def cueBlock (st : DocSt) (b : List Str) : Option DocSt :=
